@@ -48,7 +48,16 @@ Theorem wsgi_headers_clean : forall b : base,
      wsgi_start_ok (WStart (b_status b) (start_headers false (RStream b ct prod))) = true).
 Proof. exact wsgi_simple_headers_clean_proof. Qed.
 
+(* The file of a file response is removed after the response was built and before it is
+   opened: what was emitted (the response start) is a legal prefix on both interfaces —
+   in particular start_response is not called a second time. *)
+Theorem vanished_file_prefix_legal : forall r : recipe,
+  status_ok r ->
+  asgi_legal false (asgi_vanished r) = true /\ wsgi_shape (wsgi_vanished r) = true.
+Proof. exact vanished_file_prefix_legal_proof. Qed.
+
 Print Assumptions asgi_trace_legal.
 Print Assumptions asgi_fault_prefix_legal.
 Print Assumptions wsgi_trace_shape.
 Print Assumptions wsgi_headers_clean.
+Print Assumptions vanished_file_prefix_legal.
